@@ -277,7 +277,13 @@ func RunRB(out, out2, mode string) {
 			}
 			lay := bamx.Parse(dry)
 			if !lay.OK || len(lay.Recs) != len(recs) {
-				panic("bam dry run layout")
+				// the writer's own output does not parse as the records written: that is behaviour of
+				// the code under test, recorded as an event no specification accepts
+				t.Begin("writer/bam", tr.M{"wc": 1, "level": -1, "B": bgzf.BlockSize, "faultAt": 0, "partial": false, "script": []string{}, "scriptId": 0, "hasHdr": false, "hold": []string{}})
+				t.Ev("abort", tr.M{"sig": "writer/bam/dryrun", "res": "layout", "err": "stream written by bam.Writer does not parse as header + the records written"})
+				ran++
+				aborted++
+				continue
 			}
 			sizes := []int{int(lay.HdrLen)}
 			for _, rr := range lay.Recs {
